@@ -5,6 +5,7 @@ import TsV.Lemmas.C10_Swift
 import TsV.Lemmas.C10_Go
 import TsV.Lemmas.C10_Keywords
 import TsV.Lemmas.C10_Spec
+import TsV.Lemmas.C10_PyDoc
 import TsV.Model.Generate
 /-!
 # C10 — generated files are syntactically well-formed in their target language  (PARTIAL)
@@ -24,6 +25,8 @@ What is a theorem here, and what is only checked (tools/c10.py):
   - *keyword escaping where the back end promises it*: `swift_keyword_aware_rename` and the printed
     Swift member name are never a bare keyword; `python_property_aware_rename` never returns a
     Python keyword.
+  - *Python docstrings have no malformed escapes*: every written doc line contains backslashes only as
+    `\\` and `\"` (`python_docstring_escapes_repaired`; the finding `python-docstring-escape` is repaired).
   - *leading digits*: Kotlin / Scala / Swift algebraic variant names never start with a digit.
   - the property at full strength is **false** (`C10_not_full`), with kernel-checked witnesses on
     the model for every known class.
@@ -106,11 +109,6 @@ def Known_DocLineBreak (cs : List Str) : Bool := cs.any fun c => c.contains '\n'
 /-- C15's class for TypeScript: a doc line with `*/` -/
 def Known_DocTerminator (cs : List Str) : Bool := cs.any fun c => Str.containsSub c s%"*/"
 
-/-- **python-generic-alias**: `type G<T> = Vec<T>` is printed `G[T] = List[T]` -/
-def Known_PyGenericAlias : RustItem → Bool
-  | .alias a => !a.genericTypes.isEmpty
-  | _ => false
-
 /-- **typescript-generic-unit-enum**: `export enum E<T> {` -/
 def Known_TsGenericUnitEnum : RustItem → Bool
   | .enum e => e.keys.isNone && !e.genericTypes.isEmpty
@@ -165,11 +163,6 @@ def Known_PyTagMember (E : Ext) : RustItem → Bool
       | c :: _ => Str.isAsciiDigit c
   | _ => false
 
-/-- **python-docstring-escape**: `\x`, `\u`, `\U`, `\N` in doc text are (malformed) escapes of the
-non-raw doc string -/
-def Known_PyDocEscape (cs : List Str) : Bool :=
-  cs.any fun c => [s%"\\x", s%"\\u", s%"\\U", s%"\\N"].any (Str.containsSub c)
-
 /-- **kotlin-import-empty-package**: `import .crate.Type` -/
 def Known_KotlinImportEmptyPackage (cfg : Kotlin.Cfg) (d : ParsedData) : Bool :=
   d.multiFile && cfg.package.isEmpty
@@ -197,10 +190,23 @@ theorem dashed_kotlin : (Kotlin.structFacts {} dashedStruct).bind (fun d => .ok 
   decide
 example : Known_DashedTypeName (.struct dashedStruct) = true := by decide
 
-theorem python_generic_alias :
-    (Python.aliasFacts {} genericAlias {}).bind (fun r => .ok (Python.renderAlias r.1)) = .ok s%"G[T] = List[T]\n\n" := by
+/-- formerly a witness of **python-generic-alias** (`G[T] = List[T]`: a subscripted assignment target,
+`T` undeclared); since the `fix:` commit 614135b the alias is an ordinary assignment and `T` is
+registered as a `TypeVar` (written, with its import, in the file header) - kept as a regression -/
+theorem python_generic_alias_repaired :
+    (Python.aliasFacts {} genericAlias {}).bind (fun r => .ok (Python.renderAlias r.1, r.2.typeVars, r.2.imports)) =
+      .ok (s%"G = List[T]\n\n", [s%"T"], [(s%"typing", [s%"List", s%"TypeVar"])]) := by
   decide
-example : Known_PyGenericAlias (.alias genericAlias) = true := by decide
+
+/-- formerly the class **python-docstring-escape** (`\x`, `\u`, `\U`, `\N` in doc text were malformed
+escapes of the non-raw docstring); since the `fix:` commit 37d8a26 backslashes are doubled: reading a
+written doc line left to right, every backslash is followed by a backslash or a `"`
+(`C10PyDoc.pyEscapesOk`) — for every string -/
+theorem python_docstring_escapes_repaired (c : Str) : C10PyDoc.pyEscapesOk (Python.escapeDoc c) = true :=
+  C10PyDoc.escapeDoc_escapesOk c
+/-- the old witness, `/// see C:\Users\x` -/
+example : Python.docstring 0 [s%"see C:\\Users\\x"] = s%"\"\"\"\nsee C:\\\\Users\\\\x\n\"\"\"\n" := by decide
+example : C10PyDoc.pyEscapesOk s%"see C:\\Users\\x" = false := by decide
 
 theorem typescript_generic_unit_enum :
     (TypeScript.writeEnum {} digitUnitEnum []).bind (fun r => .ok r.1) = .ok s%"export enum E<T> {\n\t_1 = \"_1\",\n}\n\n" := by
